@@ -96,4 +96,27 @@ PROPS["C15"] = dict(engines=["atopo"], design="5/C15",
     note="Trusted: TLC; projection through weak references after gc.collect(); only operations the specification's guards allow are driven "
          "(no parallel edges, no cycles, held nodes only).")
 
+_DFNOTE = 'Trusted: TLC; pandas as the numeric oracle on the concatenation (three parties must agree: real pipeline, pandas, DFAgg); exact rationals from floats via limit_denominator; small integer values, NaN, <= 3 keys, integer-hour timestamps; floating-point accuracy is not a target.'
+PROPS["C06"] = dict(engines=["adf"], design="5/C06",
+    technique="TLA+ spec DFAgg (transcription of Aggregation.initial/on_new, accumulator, groupby_accumulator vs list-level pandas definitions; TLC exhaustive over batch sequences) + trace validation of real streaming-dataframe pipelines with pandas as third party",
+    text="TLC checks Matches (emitted value == pandas definition on everything seen) for sum/count/size/mean/var/value_counts and groupby sum/count/size/mean/var over all "
+         "sequences of <= 4 batches of <= 2 rows incl. empty batches and NaN; the pre-fix Mean is refuted as sensitivity check; thousands of real runs (Series and frames, column "
+         "and streaming-series grouper, filter/assignment in front) must agree with both pandas on the concatenation and the specification after every batch.",
+    note=_DFNOTE)
+PROPS["C07"] = dict(engines=["adf"], design="5/C07",
+    technique="TLA+ spec DFAgg window part (diff_iloc / diff_loc / on_old / size-state pruning transcribed; TLC exhaustive) + trace validation of real window(n) / window(value) pipelines against it and against pandas on the window slice",
+    text="TLC checks Matches for row windows N=1..3 and time windows T=1..3 (batches smaller / equal / larger than the window, empty batches, keys entering and leaving) for "
+         "sum/count/size/mean/var/value_counts and windowed groupby; real runs are validated step by step.",
+    note=_DFNOTE)
+PROPS["C11"] = dict(engines=["adf"], design="5/C11",
+    technique="TLA+ spec DFAgg carry-over part (rolling_accumulator, _cumulative_accumulator, diff_expanding, EWMean recurrence vs whole-table definitions; TLC exhaustive over all splits) + trace validation of real rolling / cumulative / expanding / ewm pipelines",
+    text="TLC checks Concatenated (concatenation of per-batch results == one-pass pandas definition) for rolling sum/count/mean/min/max (row and time windows), "
+         "cumsum/cumprod/cummin/cummax, expanding aggregations and EwmLast (closed-form exponentially weighted mean); the pre-fix cumulative carry is refuted as sensitivity check.",
+    note=_DFNOTE + " median/quantile/std are pandas' own whole-table operators and are not modelled; ewm with missing values is outside the model.")
+PROPS["C12"] = dict(engines=["adf"], design="5/C12",
+    technique="TLA+ spec DFAgg with a second pipeline seeded at a cut (CutHere / Resumed invariant; TLC exhaustive over cut points) + trace validation of real restart scenarios (state exposed by with_state=True / read from accumulate, fresh pipeline with start=state, both fed on)",
+    text="In the specification the resumed copy is stepped in lock step after every possible cut; on the real code the state object emitted after batch k is handed, uncopied, to a "
+         "fresh pipeline and both pipelines receive the remaining batches (original first, so aliasing shows); the resumed outputs are validated against the specification.",
+    note=_DFNOTE)
+
 # violations found by an engine shared between properties are attributed by v['property']
